@@ -500,3 +500,22 @@ func HostDialEcho(cmd plugins.Cmd, id uint32, size int) (string, error) {
 	}
 	return HostDialPing(cmd, id)
 }
+
+// HostAcceptWait accepts brokered id on the host synchronously (net/rpc: the
+// Accept call itself; gRPC: the listener is set up and served in the
+// background) and reports the error.
+func HostAcceptWait(r *Run, cmd plugins.Cmd, id uint32) error {
+	switch c := cmd.(type) {
+	case *plugins.RPCClient:
+		conn, err := c.Broker.Accept(id)
+		if err != nil {
+			return err
+		}
+		go k.Trap(func() { plugins.ServeEcho(conn, id) })
+		return nil
+	case *plugins.GRPCClient:
+		HostAccept(r, cmd, id)
+		return nil
+	}
+	return fmt.Errorf("unknown client type %T", cmd)
+}
